@@ -4,7 +4,7 @@ of the observers the translated code calls) instantiated with the model's object
 model's own (`Graph/Basic.lean`, verified against graphs.py by property C16); naturals become Python integers.
 Used by the generated driver requests and by the theorems of `Props/C11/Generated.lean`.  Import-free of Mathlib.
 -/
-import CnfgenModel.Generated.Funcs
+import CnfgenModel.Generated.FuncsAbs
 import CnfgenModel.Graph.Basic
 namespace Cnfgen
 namespace Vars
@@ -24,6 +24,10 @@ def absBip (G : BipG) : AbsBipGraph where
   left_neighbors := fun v => (G.leftNeighbors v).map (·.map Int.ofNat)
   has_edge := fun u v => G.hasEdge u v
   edges := G.edges.map (fun e => ((e.1 : Int), (e.2 : Int)))
+
+/-- `CompleteBipartiteGraph(L, R)` (`non_negative_int` on both sides), as seen by the variable groups -/
+def absCompleteBip (l r : Int) : Except Err AbsBipGraph :=
+  if l < 0 ∨ r < 0 then .error .valueError else .ok (absBip (BipG.complete l.toNat r.toNat))
 
 end Vars
 end Cnfgen
